@@ -35,9 +35,11 @@ def lex_harness(name, n_list):
         srx = P + (r'SkipComment\(' if s == 'SkipComment' else r'SkipWS\(bool')
         d['STUB_' + s.upper()] = core.csym(FAM, srx); st.append(srx)
     shapes = [dict(d, N=n, _tag='N=%d' % n) for n in n_list]
-    return Harness('P.' + name, FAM, [rx], 'c01_lex.c', stubs=st, shapes=shapes, opts=['--unwind', str(max(n_list) + 3)], timeout=600, mem_gb=8,
+    h = Harness('P.' + name, FAM, [rx], 'c01_lex.c', stubs=st, shapes=shapes, opts=['--unwind', str(max(n_list) + 3)], timeout=600, mem_gb=8,
                    inputs=['buf', 'off', 'line', 'col', 'flag', 'lit', 'sl'], required_witness=('witness: ',), string_model=True,
                    note='arbitrary cursor offset/line/col, every byte value, N = buffer length (exact array)')
+    h.termination_claim = 'C01: scanning terminates: a loop of the lexer ran more often than the N+3 bound that the input length allows'
+    return h
 
 def harnesses(tier):
     ns = [0, 1, 2, 3, 4] if tier == 'quick' else [0, 1, 2, 3, 4, 5, 6]
